@@ -383,3 +383,9 @@ Proof.
 Qed.
 
 End Sound.
+
+(* ---------- userPOS not mentioned ---------- *)
+
+(* when the Default of UserPosMode is Forbid, a mode that is not mentioned acts as a written "forbid" *)
+Lemma eff_mode_explicit : Guards.user_pos_default_allow = false -> forall m, eff_mode m = explicit_mode m.
+Proof. intros H [b|]; cbn; [reflexivity|exact H]. Qed.
